@@ -765,6 +765,8 @@ def run(ck):
     ck.run_rule("C04.R1", "PC-relative forms: rel_address = '.' + 2 + preceding operand words (all rows)", 150, c04.rule_R1)
     ck.run_rule("C04.R3", "branch displacement field: accept set and value", 8, c04.rule_R3)
     from . import c03
+    from . import c02 as _c02
+    ck.run_rule("C02.R7", "absolute operands in the second, third ... linked file: each file is assembled at base + lengths of ALL files before it", 3, _c02.rule_R7)
     ck.run_rule("C03.R7", "operand values built from not-yet-known symbols: LinearPolynomial algebra (sums, differences, scaling, flattening)", 18, c03.rule_R7)
     from ..rules import thunks
     ck.run_rule("G1", "operand thunks read their own state: captured by value, never updated in place", 20, thunks.rule_G1)
